@@ -56,6 +56,64 @@ type Stanza struct {
 	Pw  bool     `json:"pw"` // inv: the invitation carries the room's password
 	// er: what stands inside the error presence (see erBody); "-" for the other stanza types.
 	Shape string `json:"shape"`
+	// av / un: the content of the muc#user payload: the status codes in document order (absent in a
+	// script: the plain ones, see defCodes) and the variant of the item element (see presX).
+	Codes []int  `json:"codes"`
+	Item  string `json:"item"`
+}
+
+// defCodes: the status codes of the plain payload: the occupant's own presence says so (110); the
+// presence of the other nick claims to be the user's own under a nick the room modified (110, 210).
+func defCodes(s *Stanza) []int {
+	switch {
+	case s.Ty == "av" && s.Nick == "ot":
+		return []int{110, 210}
+	case s.Ty == "av" || s.Ty == "un":
+		return []int{110}
+	}
+	return []int{}
+}
+
+// presX renders the muc#user payload of an (un)available presence: its status codes and the item variant.
+func presX(s *Stanza) string {
+	role := "participant"
+	if s.Ty == "un" {
+		role = "none"
+	}
+	st := ""
+	for _, c := range s.Codes {
+		st += fmt.Sprintf("<status code='%d'/>", c)
+	}
+	item := ""
+	switch s.Item {
+	case "-", "", "sfirst":
+		item = fmt.Sprintf("<item affiliation='member' role='%s'/>", role)
+	case "noitem":
+	case "nick": // the item names a (new) nickname
+		item = fmt.Sprintf("<item affiliation='member' role='%s' nick='nn'/>", role)
+	case "jid": // a room that is not anonymous: the real address of the occupant, this session's
+		item = fmt.Sprintf("<item affiliation='member' role='%s' jid='me@example.net/res'/>", role)
+	case "jidoth": // ... another resource of the same account (a nickname shared by several sessions)
+		item = fmt.Sprintf("<item affiliation='member' role='%s' jid='me@example.net/other'/>", role)
+	case "actor": // who did it and why
+		item = fmt.Sprintf("<item affiliation='none' role='%s'><actor nick='boss'/><reason>because</reason></item>", role)
+	case "outcast":
+		item = "<item affiliation='outcast' role='none'><actor jid='boss@example.net'/><reason>spam</reason></item>"
+	case "rolekept": // the role is repeated also on an unavailable presence
+		item = "<item affiliation='member' role='participant'/>"
+	case "visitor":
+		item = "<item affiliation='none' role='visitor'/>"
+	case "owner":
+		item = "<item affiliation='owner' role='moderator'/>"
+	case "destroy": // the room is being destroyed
+		item = "<item affiliation='none' role='none'/><destroy jid='elsewhere@" + service + "'><reason>closed</reason></destroy>"
+	default:
+		panic("item variant " + s.Item)
+	}
+	if s.Item == "sfirst" {
+		return "<x xmlns='http://jabber.org/protocol/muc#user'>" + st + item + "</x>"
+	}
+	return "<x xmlns='http://jabber.org/protocol/muc#user'>" + item + st + "</x>"
 }
 
 // erShapes lists the shapes of an error reply: the first five are well-formed (the reply carries
@@ -102,7 +160,7 @@ const invPassword = "s3cret"
 
 // Step is one environment step.
 type Step struct {
-	Op   string  `json:"op"`   // join rejoin leave cancel send rest
+	Op   string  `json:"op"`   // join rejoin renick leave subject invite cancel send rest
 	Room string  `json:"room"` // calls
 	Call string  `json:"call"` // cancel: the call to cancel
 	St   *Stanza `json:"st,omitempty"`
@@ -119,6 +177,8 @@ type Scenario struct {
 	// Choices, when present, fixes the schedule of an explore scenario (replay).
 	Choices []int `json:"choices,omitempty"`
 	Fixed   bool  `json:"fixed,omitempty"`
+	// MaxRuns, when present, replaces the cap on the number of schedules (MUC_MAXRUNS) for this scenario.
+	MaxRuns int `json:"maxruns,omitempty"`
 }
 
 const hdrIn = `<stream:stream from="example.net" to="me@example.net" id="123" version="1.0" xmlns="jabber:client" xmlns:stream="http://etherx.jabber.org/streams">`
@@ -170,7 +230,6 @@ func stanzaBytes(s *Stanza, seq int) string {
 	if s.Nick != "-" && s.Nick != "" {
 		from += "/" + s.Nick
 	}
-	x110 := `<x xmlns='http://jabber.org/protocol/muc#user'><item affiliation='member' role='participant'/><status code='110'/></x>`
 	if (s.Ty == "av" || s.Ty == "un") && presShapes[s.Shape] {
 		typ, role := "", "participant"
 		if s.Ty == "un" {
@@ -180,13 +239,9 @@ func stanzaBytes(s *Stanza, seq int) string {
 	}
 	switch s.Ty {
 	case "av":
-		if s.Nick == "ot" {
-			// another nick, claimed to be the user's own (110) and modified by the room (210)
-			x110 = `<x xmlns='http://jabber.org/protocol/muc#user'><item affiliation='member' role='participant'/><status code='110'/><status code='210'/></x>`
-		}
-		return fmt.Sprintf("<presence from='%s' to='me@example.net' id='s%d'>%s</presence>", from, seq, x110)
+		return fmt.Sprintf("<presence from='%s' to='me@example.net' id='s%d'>%s</presence>", from, seq, presX(s))
 	case "un":
-		return fmt.Sprintf("<presence from='%s' to='me@example.net' id='s%d' type='unavailable'><x xmlns='http://jabber.org/protocol/muc#user'><item affiliation='member' role='none'/><status code='110'/></x></presence>", from, seq)
+		return fmt.Sprintf("<presence from='%s' to='me@example.net' id='s%d' type='unavailable'>%s</presence>", from, seq, presX(s))
 	case "er":
 		body := erBody(s.Shape, conds[s.Call])
 		if body == "" {
@@ -325,6 +380,7 @@ type runner struct {
 	client   *muc.Client
 	chans    map[string]*muc.Channel
 	pending  map[string]string // room -> pending call
+	kinds    map[string]string // call -> join rejoin leave subject invite
 	callNo   int
 	ctxs     map[string]context.Context
 	cancels  map[string]context.CancelFunc
@@ -349,8 +405,23 @@ func (r *runner) isDone(c string) bool {
 	return r.done[c]
 }
 
-func roomJID(r, nick string) jid.JID {
-	return jid.MustParse(r + "@" + service + "/" + nick)
+// chanJID is the occupant address the channel named r joins as: "r1b" names a second channel in
+// room r1 under the nickname me2, every other name the room of that name under the nickname me.
+func chanJID(r string) jid.JID {
+	if r == "r1b" {
+		return jid.MustParse("r1@" + service + "/me2")
+	}
+	return jid.MustParse(r + "@" + service + "/me")
+}
+
+func isAux(op string) bool { return op == "subject" || op == "invite" }
+
+// otherNick is the nickname a "renick" call on the channel named r asks for: the one it did not join as.
+func otherNick(r string) string {
+	if chanJID(r).Resourcepart() == "me" {
+		return "me2"
+	}
+	return "me"
 }
 
 func (r *runner) startCall(st Step) {
@@ -358,8 +429,11 @@ func (r *runner) startCall(st Step) {
 	c := "c" + strconv.Itoa(r.callNo)
 	ctx, cancel := context.WithCancel(context.Background())
 	r.ctxs[c], r.cancels[c] = ctx, cancel
+	r.kinds[c] = st.Op
 	r.mu.Lock()
-	r.pending[st.Room] = c
+	if !isAux(st.Op) {
+		r.pending[st.Room] = c
+	}
 	ch := r.chans[st.Room]
 	r.mu.Unlock()
 	r.lg.Add(vt.Ev{"ev": "call", "c": c, "kind": st.Op, "r": st.Room})
@@ -375,7 +449,7 @@ func (r *runner) startCall(st Step) {
 			switch st.Op {
 			case "join":
 				var nch *muc.Channel
-				nch, err = r.client.JoinPresence(ctx, stanza.Presence{ID: c, To: roomJID(room, "me")}, r.sess)
+				nch, err = r.client.JoinPresence(ctx, stanza.Presence{ID: c, To: chanJID(room)}, r.sess)
 				if nch != nil {
 					r.mu.Lock()
 					r.chans[room] = nch
@@ -383,8 +457,14 @@ func (r *runner) startCall(st Step) {
 				}
 			case "rejoin":
 				err = ch.JoinPresence(ctx, stanza.Presence{ID: c})
+			case "renick": // join again, asking for the other nickname
+				err = ch.JoinPresence(ctx, stanza.Presence{ID: c}, muc.Nick(otherNick(room)))
 			case "leave":
 				err = ch.LeavePresence(ctx, "", stanza.Presence{ID: c})
+			case "subject": // fire and forget: one groupchat message
+				err = ch.SubjectMessage(ctx, "topic of "+c, stanza.Message{ID: c})
+			case "invite": // fire and forget: one mediated invitation
+				err = ch.Invite(ctx, "come "+c, jid.MustParse("friend@example.net"))
 			}
 		}()
 		e := vt.Ev{"ev": "ret", "c": c, "o": "ok", "cond": "-"}
@@ -402,7 +482,7 @@ func (r *runner) startCall(st Step) {
 		}
 		r.mu.Lock()
 		r.done[c] = true
-		if r.pending[room] == c {
+		if r.pending[room] == c && !isAux(st.Op) {
 			delete(r.pending, room)
 		}
 		r.mu.Unlock()
@@ -426,11 +506,20 @@ func (r *runner) envEnabled() (ok bool, waits bool) {
 	r.mu.Lock()
 	defer r.mu.Unlock()
 	switch st.Op {
-	case "join", "rejoin", "leave":
+	case "join", "rejoin", "leave", "renick":
 		if _, p := r.pending[st.Room]; p {
 			return false, true
 		}
 		if st.Op != "join" && r.chans[st.Room] == nil {
+			return false, true
+		}
+	case "subject", "invite":
+		// on a channel the application holds; never while a join is pending on it (Join writes the
+		// channel's address: the type is not safe for that)
+		if r.chans[st.Room] == nil {
+			return false, true
+		}
+		if c, p := r.pending[st.Room]; p && r.kinds[c] != "leave" {
 			return false, true
 		}
 	}
@@ -482,7 +571,7 @@ func (r *runner) doEnv() {
 		if r.rest != "" {
 			r.feedRest()
 		}
-	case "join", "rejoin", "leave":
+	case "join", "rejoin", "leave", "renick", "subject", "invite":
 		r.startCall(st)
 	case "cancel":
 		if r.cancels[st.Call] == nil {
@@ -553,7 +642,7 @@ func (r *runner) sample() {
 func runSchedule(sc Scenario, choices []int) result {
 	r := &runner{sc: sc, lg: &vt.Log{}, chans: map[string]*muc.Channel{}, pending: map[string]string{},
 		ctxs: map[string]context.Context{}, cancels: map[string]context.CancelFunc{}, done: map[string]bool{},
-		cancd: map[string]bool{}, lastObs: map[string]string{}, quietAt: -1}
+		cancd: map[string]bool{}, lastObs: map[string]string{}, kinds: map[string]string{}, quietAt: -1}
 	lg := r.lg
 	r.conn = vt.NewConn()
 	r.conn.FeedString(hdrIn)
@@ -865,6 +954,15 @@ func main() {
 					st.Lay = []string{"u"}
 				}
 			}
+			// every presence carries its payload content: the plain one when the script names none
+			if st := s.Steps[i].St; st != nil {
+				if st.Codes == nil {
+					st.Codes = defCodes(st)
+				}
+				if st.Item == "" {
+					st.Item = "-"
+				}
+			}
 			// every stanza carries a shape: the plain well-formed one for an error reply without
 			if st := s.Steps[i].St; st != nil && (st.Ty == "av" || st.Ty == "un") && presShapes[st.Shape] {
 				continue // a presence whose muc#user payload cannot be decoded
@@ -937,10 +1035,14 @@ func main() {
 			last = runSchedule(sc, sc.Choices)
 			one(sc.Choices)
 		} else if sc.Mode == "explore" {
+			mr := maxRuns
+			if sc.MaxRuns > 0 && mr > 0 && sc.MaxRuns > mr {
+				mr = sc.MaxRuns
+			}
 			vt.Explore(func(choices []int) vt.RunResult {
 				last = runSchedule(sc, choices)
 				return last.res
-			}, maxPre, maxRuns, one)
+			}, maxPre, mr, one)
 		} else {
 			last = runSchedule(sc, nil)
 			one(nil)
